@@ -85,6 +85,7 @@ def make_world(rng, ties_ok=True):
                      for _ in range(n_rdm)])
     if rng.integers(4) == 0 and ties_ok:
         data = np.round(data * 2) / 2   # ties
+        data[data == 0] = 0.5           # no exact zeros: an all-zero resample has no cosine (measure undefined)
     rd = {'uid': [int(v) for v in 50 + rng.permutation(n_rdm)], 'grp': [int(v) + 3 for v in rg]}
     pd = {'puid': [int(v) for v in 100 + np.arange(n_cond)], 'pgrp': [int(v) * 2 + 1 for v in pg]}
     n_basis = 3
@@ -120,6 +121,9 @@ def make_models(rng, w, for_cv):
             j = int(rng.integers(2))
             th[j], th[j + 1] = 0.4, 0.6
             out.append((ModelInterpolate(f'int{i}', mrd(w['basis'])), th, None))
+    if len(out) > 1 and rng.integers(4) == 0:
+        for m, _, _ in out:       # models are identified by position; nothing requires their names to differ
+            m.name = 'model'
     return out
 
 
@@ -528,7 +532,7 @@ def run_boot_cv(ctx, routine, tap):
     n_rg = unique_groups(w, 'rdm') if grouped else w['n_rdm']
     n_pg = unique_groups(w, 'pattern') if grouped else w['n_cond']
     N = int(rng.integers(3, 8))
-    n_cv = int(rng.integers(1, 3))
+    n_cv = int(rng.integers(1, 4))
     boot_type = gen.pick(rng, ['both', 'pattern', 'rdm']) if routine != 'eval_dual_bootstrap' else 'both'
     use_corr = bool(n_cv > 1 and rng.integers(2))
     seed = int(rng.integers(2 ** 31))
